@@ -202,6 +202,160 @@ def gen_case(rng, profile_name, max_types=12):
     return reg, roots, g.feat
 
 
+# ---------------------------------------------------------------- targeted templates
+def near_miss(g, rng, reg, t):
+    """a type close to `t` but (usually) not assignable to it: same constructor, one component changed"""
+    ty = reg.types[t]
+    k = ty[0]
+    other_leaf = lambda: reg.ty(rng.choice([("int",), ("bin",), ("ref",)]))
+    if k in ("int", "bin", "ref"):
+        x = other_leaf()
+        return x if x != t else reg.ty(("tuple", reg.tu(2, [])))
+    if k == "fn":
+        r = rng.random()
+        if r < 0.5:
+            return reg.ty(("fn", ty[1], near_miss(g, rng, reg, ty[2]), ty[3]))
+        if r < 0.8:
+            return reg.ty(("fn", near_miss(g, rng, reg, ty[1]), ty[2], ty[3]))
+        return reg.ty(("fn", ty[1], ty[2], near_miss(g, rng, reg, ty[3])))
+    if k == "proc":
+        if ty[1] is None or ty[2] is None:
+            return other_leaf()
+        if rng.random() < 0.5:
+            return reg.ty(("proc", near_miss(g, rng, reg, ty[1]), ty[2]))
+        return reg.ty(("proc", ty[1], near_miss(g, rng, reg, ty[2])))
+    if k == "union":
+        vs = list(ty[1])
+        extra = g.gen(1, [False], no_union=True)
+        if extra not in vs:
+            vs.append(extra)          # a strictly wider union is not assignable to the narrower one
+        return reg.ty(("union", tuple(vs)))
+    if k == "partial":
+        fs = list(ty[2])
+        if fs:
+            i = rng.randrange(len(fs))
+            fs[i] = (fs[i][0], near_miss(g, rng, reg, fs[i][1]))
+            return reg.ty(("partial", ty[1], tuple(fs)))
+        return other_leaf()
+    if k == "tuple":
+        name, fs = reg.tuples[ty[1]]
+        if fs:
+            fs = list(fs)
+            i = rng.randrange(len(fs))
+            fs[i] = (fs[i][0], near_miss(g, rng, reg, fs[i][1]))
+            return reg.ty(("tuple", reg.tu(name, fs)))
+        return reg.ty(("tuple", reg.tu((name or 0) + 1 if isinstance(name, int) else 1, [])))
+    return other_leaf()
+
+
+def gen_shared_component_case(rng):
+    """k same-name, same-arity tuple variants under a union that share one component type (of ANY
+    kind) in an early field and differ in a later one; the self side is such a tuple whose shared
+    component is a near miss (or the component itself) and whose later field picks a non-first
+    variant.  A comparison of the shared pair that fails under the first variant must not be
+    remembered when the second variant is tried (F7's shape, for every constructor arm)."""
+    reg = Reg()
+    kind = rng.choice(["higher", "higher", "partial", "fo", "fo_nocycle"])
+    g = Gen(rng, reg, PROFILES[kind])
+    shared = g.gen(rng.choice([1, 2, 2]), [])
+    if rng.random() < 0.35:
+        # force a callable / process component
+        a, b = g.gen(1, [True]), g.gen(1, [True])
+        shared = reg.ty(("fn", a, b, reg.ty(("union", ())))) if rng.random() < 0.7 else reg.ty(("proc", a, b))
+    k = rng.choice([2, 2, 3])
+    leaves = [("int",), ("bin",), ("ref",)]
+    rng.shuffle(leaves)
+    distinct = [reg.ty(l) for l in leaves[:k]]
+    name = rng.choice([None, 0, 1])
+    pad = rng.random() < 0.3          # a third, common field
+    labels = rng.sample([0, 1, 2], 3) if rng.random() < 0.3 else [None, None, None]
+    def tup(comp, d):
+        fs = [(labels[0], comp), (labels[1], d)] + ([(labels[2], reg.ty(("int",)))] if pad else [])
+        return reg.ty(("tuple", reg.tu(name, fs)))
+    variants = [tup(shared, d) for d in distinct]
+    union = reg.ty(("union", tuple(variants)))
+    r = rng.random()
+    comp = near_miss(g, rng, reg, shared) if r < 0.7 else (shared if r < 0.85 else g.gen(2, []))
+    j = rng.randrange(1, k)
+    selfs = [tup(comp, distinct[j])]
+    if rng.random() < 0.5:
+        selfs.append(tup(comp, distinct[0]))
+    qs = []
+    for s in selfs:
+        if s != union:
+            qs += [("compat", s, union), ("overlap", s, union), ("overlap", union, s)]
+        for v in variants:
+            if v != s:
+                qs.append(("compat", s, v))
+    if comp != shared:
+        qs += [("compat", comp, shared), ("overlap", comp, shared)]
+    if selfs[0] != union:
+        qs += [("isect", selfs[0], union), ("compl", union, selfs[0])]
+    feat = dict(g.feat)
+    feat["shared_kind_" + reg.types[shared][0]] = 1
+    return reg, qs, feat
+
+
+def gen_partial_vs_recursive_case(rng):
+    """a partial (possibly under a union) against a recursive union whose tuple variant carries the
+    partial's label on a back-reference (or on a field containing one); both argument orders,
+    overlap and compat.  The tuple's `^` must be resolved against ITS OWN binders."""
+    reg = Reg()
+    g = Gen(rng, reg, PROFILES["fo"])
+    nil = reg.ty(("tuple", reg.tu(rng.choice([0, 1]), [])))
+    lab_rec, lab_head = rng.sample([0, 1, 2], 2)
+    head = reg.ty(rng.choice([("int",), ("bin",)]))
+    r = rng.random()
+    if r < 0.5:
+        rec_field = reg.ty(("cycle", 1))
+    elif r < 0.75:
+        # the label sits on a field that CONTAINS the back-reference
+        rec_field = reg.ty(("tuple", reg.tu(2, [(None, reg.ty(("cycle", 1)))])))
+    else:
+        rec_field = reg.ty(("union", (nil, reg.ty(("cycle", 2)))))
+    cons_name = rng.choice([2, None])
+    fs = [(lab_head, head), (lab_rec, rec_field)]
+    if rng.random() < 0.4:
+        fs.reverse()
+    cons = reg.ty(("tuple", reg.tu(cons_name, fs)))
+    extra = [reg.ty(("int",))] if rng.random() < 0.3 else []
+    lst = reg.ty(("union", tuple([nil, cons] + extra)))
+    # what the partial asks of the labelled field
+    r = rng.random()
+    if r < 0.35:
+        want = nil
+    elif r < 0.55:
+        want = lst
+    elif r < 0.7:
+        want = reg.ty(("tuple", reg.tu(2, [(None, nil)])))
+    elif r < 0.85:
+        want = head
+    else:
+        want = g.gen(1, [])
+    pfields = [(lab_rec, want)]
+    if rng.random() < 0.3:
+        pfields.append((lab_head, head))
+    partial = reg.ty(("partial", rng.choice([None, None, cons_name]), tuple(pfields)))
+    side = partial
+    if rng.random() < 0.6:
+        side = reg.ty(("union", tuple(rng.sample([partial, reg.ty(rng.choice([("int",), ("ref",)]))], 2))))
+    qs = []
+    for a, b in ((side, lst), (lst, side), (partial, cons), (cons, partial), (cons, side), (partial, lst)):
+        if a != b:
+            qs += [("overlap", a, b), ("compat", a, b)]
+    qs += [("isect", side, lst), ("isect", lst, side)]
+    seen, out = set(), []
+    for q in qs:
+        if q not in seen:
+            seen.add(q); out.append(q)
+    feat = dict(g.feat)
+    feat["partial"] = 1
+    return reg, out, feat
+
+
+TEMPLATES = {"shared": gen_shared_component_case, "partial_rec": gen_partial_vs_recursive_case}
+
+
 def queries_for(rng, roots, nq):
     pairs = [(a, b) for a in roots for b in roots if a != b]
     rng.shuffle(pairs)
@@ -304,9 +458,14 @@ def run(ctx):
         cases.append((line, qs_of_line(line), {}, "corpus"))
     ncorpus = len(cases)
     n = ctx.n(3000, 60000)
-    profs = ["fo"] * 5 + ["fo_nocycle"] * 2 + ["partial"] * 2 + ["higher"] * 2
+    profs = ["fo"] * 5 + ["fo_nocycle"] * 2 + ["partial"] * 2 + ["higher"] * 2 + ["shared"] * 2 + ["partial_rec"]
     for i in range(n):
         prof = profs[i % len(profs)]
+        if prof in TEMPLATES:
+            reg, qs, feat = TEMPLATES[prof](rng)
+            feat["uut"] = union_under_tuple(reg)
+            cases.append((case_line(reg, qs), qs, feat, prof))
+            continue
         reg, roots, feat = gen_case(rng, prof)
         if len(roots) < 2:
             continue
